@@ -225,6 +225,9 @@ var c19Ops = []c19Op{
 	{"transform.GetExtendedSpatialIdsWithinRadiusOfLine", func(w *c19World) string {
 		return cs(transform.GetExtendedSpatialIdsWithinRadiusOfLine(w.cpts[0], w.cpts[1], w.radius, w.ch, w.ch, false))
 	}},
+	{"transform.GetExtendedSpatialIdsWithinRadiusOfLine(not measured)", func(w *c19World) string {
+		return cs(transform.GetExtendedSpatialIdsWithinRadiusOfLine(w.cpts[0], w.cpts[1], w.radius, w.ch, w.ch, true))
+	}},
 	{"transform.GetVoxelIDfromSpatialID", func(w *c19World) string { return fmt.Sprint(transform.GetVoxelIDfromSpatialID(w.ext[0])) }},
 	{"object.ExtendedSpatialID methods", func(w *c19World) string {
 		return fmt.Sprint(w.eobj.ID(), w.eobj.FieldParams(), w.eobj.Higher(0, 0).ID(), w.tiles[0].HZoom(), w.qks[0].Quadkey(), w.pts[0].Lat())
@@ -569,23 +572,40 @@ func c19Fan(c *CaseC19, w *c19World, fl *Fails) {
 	for i := int64(0); i < 512; i++ {
 		kids = append(kids, ref.Box{H: b0.H + 3, X: b0.X*8 + i%8, Y: b0.Y*8 + (i/8)%8, V: b0.V + 3, F: b0.F*8 + i/64}.Ext())
 	}
+	var sp512 []string
+	for i := int64(0); i < 512; i++ {
+		sp512 = append(sp512, ref.Box{H: 12, X: 100 + i%32, Y: 200 + i/32, V: 12, F: -3}.Spatial())
+	}
+	// operations come in pairs (even index, odd index) that differ in exactly ONE argument: in the "same function"
+	// phase half of the goroutines run one, half the other (calls that are joined, memoised or batched by a key
+	// that leaves an argument out)
 	heavy := []c19Op{
 		{"shape.GetExtendedSpatialIdsOnLine(long)", func(*c19World) string { return cs(shape.GetExtendedSpatialIdsOnLine(near, far, fz, fz)) }},
+		{"shape.GetExtendedSpatialIdsOnLine(long, vZoom-1)", func(*c19World) string { return cs(shape.GetExtendedSpatialIdsOnLine(near, far, fz, fz-1)) }},
 		{"shape.GetSpatialIdsOnLine(long)", func(*c19World) string { return cs(shape.GetSpatialIdsOnLine(far, near, fz-1)) }},
+		{"shape.GetSpatialIdsOnLine(long, zoom-1)", func(*c19World) string { return cs(shape.GetSpatialIdsOnLine(far, near, fz-2)) }},
 		{"integrate.ChangeExtendedSpatialIdsZoom(2k)", func(w *c19World) string {
 			return cs(integrate.ChangeExtendedSpatialIdsZoom(w.ext[:1], b0.H+4, b0.V+3))
 		}},
+		{"integrate.ChangeExtendedSpatialIdsZoom(1k, vZoom-1)", func(w *c19World) string {
+			return cs(integrate.ChangeExtendedSpatialIdsZoom(w.ext[:1], b0.H+4, b0.V+2))
+		}},
 		{"integrate.MergeExtendedSpatialIds(512)", func(*c19World) string { return cs(integrate.MergeExtendedSpatialIds(kids, b0.H, b0.V)) }},
+		{"integrate.MergeExtendedSpatialIds(512, vZoom+1)", func(*c19World) string { return cs(integrate.MergeExtendedSpatialIds(kids, b0.H, b0.V+1)) }},
 		{"operated.GetNspatialIdsAroundVoxcels(3,3)", func(w *c19World) string { return cs(operated.GetNspatialIdsAroundVoxcels(w.ext, 3, 3)) }},
-		{"transform.GetExtendedSpatialIdsWithinRadiusOfLine", func(w *c19World) string {
+		{"operated.GetNspatialIdsAroundVoxcels(3,2)", func(w *c19World) string { return cs(operated.GetNspatialIdsAroundVoxcels(w.ext, 3, 2)) }},
+		{"transform.GetExtendedSpatialIdsWithinRadiusOfLine(measured)", func(w *c19World) string {
 			return cs(transform.GetExtendedSpatialIdsWithinRadiusOfLine(w.cpts[0], w.cpts[1], w.radius, w.ch, w.ch, false))
 		}},
+		{"transform.GetExtendedSpatialIdsWithinRadiusOfLine(not measured)", func(w *c19World) string {
+			return cs(transform.GetExtendedSpatialIdsWithinRadiusOfLine(w.cpts[0], w.cpts[1], w.radius, w.ch, w.ch, true))
+		}},
 		{"detector.CheckSpatialIdsArrayOverlap(512)", func(*c19World) string {
-			var sp []string
-			for i := int64(0); i < 512; i++ {
-				sp = append(sp, ref.Box{H: 12, X: 100 + i%32, Y: 200 + i/32, V: 12, F: -3}.Spatial())
-			}
-			r, e := detector.CheckSpatialIdsArrayOverlap(sp, []string{ref.Box{H: 14, X: 4*131 + 1, Y: 4*215 + 2, V: 14, F: -9}.Spatial()})
+			r, e := detector.CheckSpatialIdsArrayOverlap(sp512, []string{ref.Box{H: 14, X: 4*131 + 1, Y: 4*215 + 2, V: 14, F: -9}.Spatial()})
+			return fmt.Sprint(r, errStr(e))
+		}},
+		{"detector.CheckSpatialIdsArrayOverlap(512, other id)", func(*c19World) string {
+			r, e := detector.CheckSpatialIdsArrayOverlap(sp512, []string{ref.Box{H: 14, X: 4*131 + 1, Y: 4*215 + 2, V: 14, F: -17}.Spatial()})
 			return fmt.Sprint(r, errStr(e))
 		}},
 	}
@@ -622,12 +642,12 @@ func c19Fan(c *CaseC19, w *c19World, fl *Fails) {
 		close(start)
 		wg.Wait()
 	}
-	for k := range heavy { // all goroutines in the same function
+	for k := 0; k+1 < len(heavy); k += 2 { // all goroutines in the same function, two argument variants
 		k := k
-		run(func(int, int) int { return k }, 1)
+		run(func(g, _ int) int { return k + g%2 }, 1)
 	}
 	run(func(g, s int) int { return (g + s) % len(heavy) }, 3) // mixed
-	Count("c19_fan_calls", int64(c.Fan*(len(heavy)+3)))
+	Count("c19_fan_calls", int64(c.Fan*(len(heavy)/2+3)))
 	if bad != "" {
 		fl.Add("fan-result-differs", "%s", bad)
 	}
